@@ -365,7 +365,7 @@ def parse_impl(lines):
                 elif w[0] == "FOLD":
                     st["fold"][w[1]] = float.fromhex(w[2])
                 elif w[0] == "ROT" and w[1] == "v":
-                    st.setdefault("rot", {})[int(w[2])] = [float.fromhex(x) for x in w[4:14]]
+                    st.setdefault("rot", {})[int(w[2])] = [float.fromhex(x) for x in w[4:9]]
                 elif w[0] == "ATOMF":
                     st["atomf"][int(w[1])] = [float.fromhex(x) for x in w[2:5]]
             except ValueError:
@@ -458,7 +458,7 @@ def model_line(case, isteps):
         p.append(vl(step_eforce(case, isteps, t)))
         p.append(hx(bias_force(case, isteps[t]["cv"].get("v", float("nan")))))
         for ci in rot_indices(case):
-            p.append(" ".join(hx(x) for x in isteps[t].get("rot", {}).get(ci, [1.0, 0, 0, 0, 1.0, 0, 0, 0, 1.0, 0.0])))
+            p.append(" ".join(hx(x) for x in isteps[t].get("rot", {}).get(ci, [1.0, 0.0, 0.0, 0.0, 0.0])))
     return " ".join(p)
 
 
@@ -1062,7 +1062,7 @@ def check(run):
             first.append(c)
     for i in range(24 if quick else 1200):          # rotated frames
         first.append(rot_case(r, "rmsd" if i % 2 == 0 else "eigenvector"))
-    n = 420 if quick else 12000
+    n = 300 if quick else 12000
     cases = list(first)
     target = len(first) + n
     while len(cases) < target:
